@@ -250,7 +250,7 @@ def _rl(fn, *a):
 
 
 _NEW_TAGS = [("p is not prime", "pprime"), ("negative a", "aneg"), ("p <= a", "age"), ("negative b", "bneg"),
-             ("p <= b", "bge"), ("zero discriminant", "disc"), ("y-coordinate not in", "geny"),
+             ("p <= b", "bge"), ("zero discriminant", "disc"), ("x-coordinate not in", "genx"), ("y-coordinate not in", "geny"),
              ("Generator is not on the curve", "genoff"), ("n is not prime", "nprime"), ("n not in p+1", "hasse"),
              ("INF point cannot be a generator", "infgen"), ("n is not the group order", "order"),
              ("invalid cofactor", "cofactor"), ("n=p weak curve", "neqp"), ("weak curve: the embedding", "mov")]
